@@ -22,6 +22,7 @@ translator understands; any other shape raises TieBroken (never guessed).
 import ast
 
 from .pyexpr import ExprT, TieBroken, find_class, find_func, strip_doc, sha
+from .normalize import parse_file, parse as norm_parse
 
 SRC = 'bobocep/dist/crypto/aes.py'
 OUT = 'Crypto.lean'
@@ -74,8 +75,7 @@ def _new_call(call, what):
 
 
 def translate(repo):
-    src = (repo / SRC).read_text()
-    tree = ast.parse(src)
+    src, tree = parse_file(repo, SRC)
     vals = _module_consts(tree)
 
     # ---- constants
